@@ -43,3 +43,57 @@ pub(crate) mod kani_oti {
         kani::cover!(f == 56403 && t == 8 && al == 8, "reach");
     }
 }
+
+#[cfg(kani)]
+pub(crate) mod kani_tuple {
+    use super::super::*;
+    use crate::systematic_constants::verif_hooks::p1_row;
+    use crate::verif::rfc::{deg_spec, tuple_spec};
+    use crate::verif::rfc_tables::*;
+
+    // C15/C04: Deg[v] for every v < 2^20 and every tabulated W
+    #[kani::proof]
+    #[kani::unwind(32)]
+    pub(crate) fn deg_matches_rfc() {
+        let v: u32 = kani::any();
+        let idx: usize = kani::any();
+        kani::assume(v < 1048576);
+        kani::assume(idx < 477);
+        let w = SYSTEMATIC_INDICES_AND_PARAMETERS[idx].4;
+        let d = deg(v, w);
+        assert!(d == deg_spec(v, w), "C15 deg == RFC Deg[v]");
+        assert!(1 <= d && d <= 30 && d <= w - 2, "C15 1 <= d <= min(30, W-2)");
+        kani::cover!(v == 1048575 && idx == 0, "reach");
+    }
+
+    #[kani::proof]
+    pub(crate) fn deg_refuses_large_v() {
+        let v: u32 = kani::any();
+        kani::assume(v >= 1048576);
+        let _ = deg(v, 17);
+        assert!(false, "MARKER C15 deg accepted v >= 2^20");
+    }
+
+    // C15/C04: Tuple[K', X] for a symbolic table row and every internal symbol id reachable from a 24-bit ESI
+    // (X = ESI + K' - K < 2^24 + K'): equals the RFC tuple, lies in range, no panic, no overflow.
+    #[kani::proof]
+    #[kani::unwind(32)]
+    pub(crate) fn tuple_matches_rfc() {
+        let idx: usize = kani::any();
+        let x: u32 = kani::any();
+        kani::assume(idx < 477);
+        let (kp, j, _s, _h, w) = SYSTEMATIC_INDICES_AND_PARAMETERS[idx];
+        let p1 = p1_row(idx).1;
+        kani::assume((x as u64) < 16777216u64 + kp as u64);
+        let (d, a, b, d1, a1, b1) = intermediate_tuple(x, w, j, p1);
+        let s = tuple_spec(idx, x);
+        assert!((d, a, b, d1, a1, b1) == s, "C15 intermediate_tuple == RFC Tuple[K',X]");
+        assert!(1 <= d && d <= 30 && d <= w - 2, "C15 1 <= d <= min(30, W-2)");
+        assert!(1 <= a && a < w, "C15 1 <= a < W");
+        assert!(b < w, "C15 b < W");
+        assert!(d1 == 2 || d1 == 3, "C15 d1 in {2,3}");
+        assert!(1 <= a1 && a1 < p1, "C15 1 <= a1 < P1");
+        assert!(b1 < p1, "C15 b1 < P1");
+        kani::cover!(idx == 118 && x == 3158229, "reach: the ISI whose y is 2^32 - 1");
+    }
+}
